@@ -127,7 +127,10 @@ HeavyChecks(s1, s2, e) ==
       wfn0 == IF Has(e, "img") THEN WFNamesC(e.img, C) ELSE <<>>
       \* a history that starts from a foreign image with SURPLUS sectors in a stream's chain (legal: the length field
       \* says how much of the chain is used) cannot be held to "chain length = ceil(size / sector)" (R5)
-      wfn == IF Has(e, "surplus") THEN SelectSeq(wfn0, LAMBDA n : n # "R5") ELSE wfn0
+      \* ... and one whose foreign directory entries keep the tail of an older name behind the terminating null (legal: the
+      \* length field and the terminator delimit the name) cannot be held to the zero padding the library itself writes (R7names)
+      wfn1 == IF Has(e, "surplus") THEN SelectSeq(wfn0, LAMBDA n : n # "R5") ELSE wfn0
+      wfn == IF Has(e, "namejunk") THEN SelectSeq(wfn1, LAMBDA n : n # "R7names") ELSE wfn1
   IN
   << <<"C01", "api.walk", ApiOK(e) /\ e.api.walk = WalkDump(t), TRUE>>,
      <<"C01", "api.ls", ApiOK(e) => (Has(e.api, "ls") => e.api.ls = LsDump(t)), FALSE>>,
